@@ -1,4 +1,6 @@
-// Command gen/c02 prints coq/Gen/C02Facts.v (same extractor as C17) from the /repo working tree (terms, never verdicts).
+// Command gen/c02 prints coq/Gen/C02Facts.v from the /repo working tree (terms, never verdicts): the ante / wasm /
+// signer facts of the extractor shared with C17, plus what Keeper.ApplyEvmMsg does with the sender nonce around the
+// EVM invocation (applynonce.go).
 package main
 
 import (
@@ -10,4 +12,5 @@ func main() {
 	repo := Repo()
 	Header(repo)
 	antefacts.Emit(repo)
+	emitApplyNonce(repo)
 }
